@@ -3,6 +3,7 @@
 pub mod alloc;
 pub mod encode;
 pub mod exercise;
+pub mod fuzzstage;
 pub mod gen;
 pub mod logger;
 pub mod model;
